@@ -141,7 +141,9 @@ def table_slots(ctx):
                 idx = norm(b.origin(t["args"][1]), g)
                 fa = [atom_norm(a, g) for a in b.facts_at(bi)]
                 up = any(implies(h, ("rel", "Eq", j_, ("field", ("binop", "AddWithOverflow", i_, ("int", 1)), "0"))) for h in fa)     # j == i + 1
-                down = any(implies(h, ("rel", "Eq", i_, ("field", ("binop", "AddWithOverflow", j_, ("int", 1)), "0"))) for h in fa)   # i == j + 1
+                down = any(implies(h, ("rel", "Eq", i_, ("field", ("binop", "AddWithOverflow", j_, ("int", 1)), "0"))) for h in fa) or \
+                    any(implies(h, ("rel", "Eq", j_, ("field", ("binop", "SubWithOverflow", i_, ("int", 1)), "0"))) for h in fa)      # i == j + 1  /  j == i - 1
+                up = up or any(implies(h, ("rel", "Eq", i_, ("field", ("binop", "SubWithOverflow", j_, ("int", 1)), "0"))) for h in fa)
                 low = i_ if up else (j_ if down else None)
                 want = ("call", "std::ops::Index::index", (("call", "std::ops::Index::index", (("field", me, "orbit_index"), low)), d_)) if low is not None else None
                 ok = base[2] == table and want is not None and idx == want
